@@ -47,6 +47,7 @@ func c01pWire(c *core.Ctx, k c01pCase, res []c01pResult, view *sim.World) {
 		c01pLeanDecodeAll(c, k, view, streams)
 	}
 	if k.API {
+		c01EarlyWire(c, k, bySid)
 		return
 	}
 	for i, r := range res {
@@ -109,6 +110,25 @@ func c01pCheckDir(c *core.Ctx, k c01pCase, sess int, c2s bool, dirNo int, segs [
 			closeAt = j
 		}
 		if s.IsData() || s.Proto == wire.OpenSessionRequest || s.Proto == wire.OpenSessionResponse {
+			if closeAt >= 0 && s.Proto == wire.OpenSessionResponse && len(s.Payload) == 0 {
+				// The server application wrote and closed before the session's input loop got to the
+				// open request (starved at load 75, seed 2 of round 4: data 0..2, close request 3,
+				// open response 4). The response is empty and goes to a session its own close request
+				// closes; the reader had everything. The model's `acceptOpen` on a closed session emits
+				// nothing — recorded as a model gap in docs/notes/C01.md, not compared.
+				c.Hist("program_open_response_after_close", name)
+				continue
+			}
+			if closeAt >= 0 && readerLeft {
+				// The READER of this direction closed without reading to the end: its close request
+				// makes this side's input loop answer (close response, own close request) while the
+				// application may still be inside Write, past the state check; that Write is then
+				// numbered behind the close request. The peer is gone, nothing of this is owed to
+				// anybody (seen once in a thorough run at load 75: open response 0, close response 1,
+				// close request 2, data 3). Not part of the writer's program: not compared.
+				c.Hist("program_write_raced_peer_close", name)
+				continue
+			}
 			if closeAt >= 0 {
 				c.Violate("C01/program/wire/data-after-close-request", fmt.Sprintf("%s session %d %s: a data segment follows the close request", k.Name, sess, name), k)
 			}
